@@ -427,12 +427,11 @@ func c03Helper(c *kit.Ctx, m *storeModel, hm *hashModel, r4 *kit.Rule) {
 		edgesVar = kit.ObjOf(info, as.Lhs[0])
 	}
 	var loop *ast.RangeStmt
-	ast.Inspect(f.Body, func(n ast.Node) bool {
-		if rs, ok := n.(*ast.RangeStmt); ok && kit.ObjOf(info, rs.X) == edgesVar && rs.Value != nil {
+	for _, rs := range f.SliceLoops(f.Body) {
+		if kit.ObjOf(info, rs.X) == edgesVar {
 			loop = rs
 		}
-		return true
-	})
+	}
 	oi := r4.Ob(f, nil, "per-edge update", "every iteration XORs the delta exactly once into the cached hash of that edge (seeded from the stored hash)")
 	orec := r4.Ob(f, nil, "recursion", "every iteration recurses on the edge's upper end with the same delta and cache (unless it is a sentinel)")
 	if loop == nil {
@@ -440,7 +439,7 @@ func c03Helper(c *kit.Ctx, m *storeModel, hm *hashModel, r4 *kit.Rule) {
 		orec.Violation("no loop over the queried edges")
 		return
 	}
-	e := kit.ObjOf(info, loop.Value)
+	e := kit.LoopElemVar(info, loop)
 	st := &kit.Std{F: f}
 	// helpers of the package are evaluated inline: a predicate such as
 	// hasUpstream(e.Up) or a seeding helper is as transparent as the inline code
@@ -449,7 +448,11 @@ func c03Helper(c *kit.Ctx, m *storeModel, hm *hashModel, r4 *kit.Rule) {
 	}
 	isElemSel := func(x ast.Expr, field string) bool {
 		sel, ok := ast.Unparen(st.Resolve(x)).(*ast.SelectorExpr)
-		return ok && sel.Sel.Name == field && kit.ObjOf(info, st.Resolve(sel.X)) == e
+		if !ok || sel.Sel.Name != field {
+			return false
+		}
+		rx := st.Resolve(sel.X)
+		return (e != nil && kit.ObjOf(info, rx) == e) || kit.LoopElem(info, loop, rx)
 	}
 	xt := &xorTrack{st: st, present: map[types.Object]bool{}}
 	xt.isCell = func(x ast.Expr) bool {
@@ -1044,8 +1047,8 @@ func c03Verifier(c *kit.Ctx, m *storeModel, r8 *kit.Rule) {
 	// children first
 	oC := r8.Ob(vf, calc, "children before parent", "every child is verified before the parent's hash is computed")
 	var loop *ast.RangeStmt
-	ast.Inspect(vf.Body, func(n ast.Node) bool {
-		if rs, ok := n.(*ast.RangeStmt); ok && kit.ObjOf(info, rs.X) == children {
+	for _, rs := range vf.SliceLoops(vf.Body) {
+		if kit.ObjOf(info, rs.X) == children {
 			for _, call := range kit.CallsIn(rs.Body) {
 				_ = call
 			}
@@ -1065,8 +1068,7 @@ func c03Verifier(c *kit.Ctx, m *storeModel, r8 *kit.Rule) {
 				loop = rs
 			}
 		}
-		return true
-	})
+	}
 	g := c.P.Graph(vf)
 	if loop == nil || !(loop.End() <= calc.Pos()) || !g.NodeDominates(loop.X, calc) {
 		oC.Violation("the parent's hash is computed before (or without) verifying all children: a repaired child hash is not reflected in the parent")
